@@ -49,6 +49,12 @@ def exhaustive(depth):
 DIRECTED = [
     ["0 new-sem 0 s0 300 CREATE", "obs", "1 new-sem 1 s0 7 OPEN", "1 acq 1", "0 rel 0", "0 rel 0", "obs", "2 new-sem 2 s0 257 CREATE", "obs", "1 rel 1", "obs"],
     ["0 new-sem 0 s1 70000 OPEN", "obs", "1 new-sem 1 s1 1 OPEN", "1 acq 1", "1 acq 1", "obs"],
+    # the top of the counter's range (SEM_VALUE_MAX = INT_MAX): a release adds one unit up to and including the maximum.
+    # (`obs` drains a semaphore unit by unit through the API and gives up beyond 100000 units: these histories are judged
+    # by the results of acquire / release alone and never go past the maximum)
+    ["0 new-sem 0 s0 2147483647 CREATE", "0 acq 0", "0 rel 0", "1 new-sem 1 s0 5 OPEN", "1 acq 1", "1 acq 1", "1 rel 1", "0 rel 0", "0 acq 0", "0 rel 0"],
+    ["0 new-sem 0 s1 2147483644 CREATE", "1 new-sem 1 s1 1 OPEN", "1 rel 1", "1 rel 1", "1 rel 1", "0 acq 0", "0 rel 0", "1 acq 1", "1 acq 1", "1 rel 1", "1 rel 1"],
+    ["0 new-sem 0 s0 2147483646 OPEN", "0 rel 0", "0 acq 0", "0 acq 0", "0 rel 0", "0 rel 0"],
     ["0 new-sem 0 s0 1 OPEN", "1 new-sem 1 s1 2 OPEN", "2 new-sem 2 s2 3 OPEN", "0 new-sem 3 s3 4 OPEN", "obs", "0 acq 0", "obs", "1 rel 1", "obs", "2 acq 2", "obs", "0 rel 3", "obs",
      "1 new-sem 4 s0 5 CREATE", "obs", "2 own 2", "2 free 2", "obs", "1 free 1", "obs", "0 free 3", "obs", "1 free 4", "obs"],
     ["0 new-sem 0 s1 2 CREATE", "1 new-sem 1 s0 0 OPEN", "obs", "1 own 1", "1 free 1", "obs", "0 acq 0", "0 acq 0", "obs", "2 new-sem 2 s0 1 OPEN", "obs"],
